@@ -350,6 +350,56 @@ def io_program(rng, pid, cfg, cs, n_ops, n_files=2, max_clusters=3):
     return {"id": pid, "cfg": cfg, "ops": ops, "origin": "random:io"}
 
 
+def reuse_program(rng, pid, cfg, cs):
+    """a file shrinks or is emptied, its space is taken by other files (in the same session or after a remount), then it is written again:
+    every file must still read back what was last written to it"""
+    ops = []
+    n = 0
+    names = ["a.bin", "b.bin", "c.bin", "d.bin"]
+    live = {}
+    for rnd in range(rng.randrange(2, 5)):
+        v = rng.choice(names)
+        n += 1
+        h = "v%d" % n
+        ops.append({"op": "create_file", "at": "", "path": v, "as": h})
+        ops.append({"op": "seek", "h": h, "from": "end", "off": 0})
+        ops.append({"op": "write_all", "h": h, "pat": 100 + n, "len": rng.choice([1, cs, 2 * cs, 2 * cs + 5, 3 * cs])})
+        if rng.random() < 0.4:
+            ops.append({"op": "flush", "h": h})
+        ops.append({"op": "seek", "h": h, "from": "start", "off": rng.choice([0, 0, 0, 1, cs, cs + 1])})
+        ops.append({"op": "truncate", "h": h})
+        if rng.random() < 0.25:
+            ops.append({"op": "write_all", "h": h, "pat": 200 + n, "len": rng.choice([1, cs + 1])})
+        ops.append({"op": "close", "h": h})
+        if rng.random() < 0.5:
+            ops.append({"op": rng.choice(["unmount", "dropfs"])})
+        # others take the space
+        for _ in range(rng.randrange(1, 3)):
+            w = rng.choice([x for x in names if x != v])
+            n += 1
+            g = "w%d" % n
+            ops.append({"op": "create_file", "at": "", "path": w, "as": g})
+            ops.append({"op": "seek", "h": g, "from": "end", "off": 0})
+            ops.append({"op": "write_all", "h": g, "pat": 300 + n, "len": rng.choice([cs, 2 * cs, 3 * cs + 1])})
+            ops.append({"op": "close", "h": g})
+        # the first file again
+        n += 1
+        h = "r%d" % n
+        ops.append({"op": "open_file", "at": "", "path": v, "as": h})
+        ops.append({"op": "seek", "h": h, "from": rng.choice(["start", "end"]), "off": 0})
+        ops.append({"op": "write_all", "h": h, "pat": 400 + n, "len": rng.choice([1, cs, 2 * cs + 1])})
+        ops.append({"op": "close", "h": h})
+        for x in names:
+            n += 1
+            ops.append({"op": "open_file", "at": "", "path": x, "as": "c%d" % n})
+            ops.append({"op": "read_all", "h": "c%d" % n, "len": 8 * cs})
+            ops.append({"op": "close", "h": "c%d" % n})
+        if rng.random() < 0.3:
+            ops.append({"op": "remove", "at": "", "path": rng.choice(names)})
+    ops.append({"op": "unmount"})
+    return {"id": pid, "cfg": cfg, "ops": ops, "origin": "reuse"}
+
+
 def fill_program(rng, pid, cfg, cs, rounds=3, chunk_clusters=(1, 2, 3), use_dirs=True, probe_stats=True):
     """fill-to-full / delete-all cycles (C05)"""
     ops = []
@@ -558,13 +608,17 @@ def crash_program(rng, pid, cfg, cs, n_files=2, n_after=12):
             ops.append({"op": "stats"})
     ops.append({"op": "unmount"})
     prog = {"id": pid, "cfg": cfg, "ops": ops, "crash": {"stride": 1}, "origin": "random:crash"}
-    if rng.random() < 0.35:
+    if rng.random() < 0.45:
         # a transient storage error during one flush, followed by a successful retry: the retry's promise counts
         idx = [i for i, o in enumerate(ops) if o["op"] == "flush"]
         if idx:
             i = rng.choice(idx)
             ops.insert(i + 1, dict(ops[i]))
-            prog["fault"] = {"at": i, "k": rng.randrange(1, 40), "continue": True}
+            if rng.random() < 0.5:
+                prog["fault"] = {"at": i, "k": rng.randrange(1, 40), "continue": True}
+            else:
+                # the storage's own flush fails, with an ordinary or with a transient ("interrupted", EINTR-like) error
+                prog["fault"] = {"at": i, "flush": True, "intr": rng.random() < 0.6, "continue": True}
             prog["origin"] = "random:crash+fault"
     return prog
 
@@ -664,6 +718,16 @@ def format_requests(rng, quick=True):
         if not quick:
             add(sectors, bpc=bpc, ft=32, fats=1)
             add(sectors - 1, bpc=bpc)
+    # 3c. narrow table widths forced on volumes of every magnitude up to the 32-bit sector limit, with every sector size (mostly
+    #     unsatisfiable: the answer is the invalid-input error, computed without overflow)
+    for ft in (12, 16):
+        for bps in bps_list:
+            for sectors in (1 << 16, 1 << 20, 1 << 22, 1 << 24, 1 << 26, 1 << 28, (1 << 30) - 1, 1 << 30, (1 << 30) + 1, (1 << 31) - 1, 1 << 31, (1 << 31) + 1,
+                            3 << 30, 0xFFFFFFFF):
+                add(sectors, ft=ft, bps=bps)
+                if not quick or sectors >= (1 << 30):
+                    add(sectors, ft=ft, bps=bps, bpc=bps * 128 if bps * 128 <= 65536 * 8 else 32768)
+                    add(sectors, ft=ft, bps=bps, fats=1, root=512)
     # 4. labels, ids, media, tail (device larger than the volume)
     for k in range(12 if quick else 100):
         # (a label is given as raw 8.3 bytes: a first byte of 0x00 / 0xE5 / space would not be a label at all)
@@ -1311,6 +1375,12 @@ def foreign_high_program(rng, pid):
             if rng.random() < 0.3:
                 ops.append({"op": "write_all", "h": h, "pat": n, "len": rng.choice([1, cs + 1])})
             ops.append({"op": "close", "h": h})
+    # some of the emptied / shortened files are removed again (everything they owned must come back, nothing more)
+    ops.append({"op": "stats"})
+    for fl in files:
+        if "/" not in fl and rng.random() < 0.8:
+            ops.append({"op": "remove", "at": "", "path": fl})
+            ops.append({"op": "stats"})
     moves = [("High Dir A/Inner Dir", "inner at top"), ("High Dir B", "High Dir A/b below a"), ("High Dir A/b below a", "b back"),
              ("High Dir A/in a.txt", "a file at top.txt"), ("High Dir A", "b back/a below b"), ("b back/a below b", "a back")]
     for src, dst in moves[:rng.randrange(3, 7)]:
